@@ -238,13 +238,65 @@ Fails(st, e) ==
 (*                INSTANCE (v.tocimxml(ignore_path=True), as               *)
 (*                WBEMConnection.InvokeMethod already does for its input   *)
 (*                parameters)                                              *)
+(*   W.dtOffset   how CIMDateTime.minutes_from_utc computes the UTC offset  *)
+(*                that is written: "days" (the code) / "trunc" (see         *)
+(*                MinutesFromUtc below)                                     *)
 (***************************************************************************)
 WAsIs  == [x |-> AsIs, nullOk |-> FALSE, char16Kb |-> FALSE, boolPval |-> FALSE,
            nullNode |-> "fresh", embEmpty |-> "list", pathAttach |-> "after",
-           embPath |-> "kept"]
+           embPath |-> "kept", dtOffset |-> "days"]
 WFixed == [x |-> CrFixed, nullOk |-> TRUE, char16Kb |-> TRUE, boolPval |-> TRUE,
            nullNode |-> "fresh", embEmpty |-> "list", pathAttach |-> "after",
-           embPath |-> "ignored"]
+           embPath |-> "ignored", dtOffset |-> "days"]
+
+(*---------------- datetime timestamps: the UTC offset ---------------------*)
+(* A CIM timestamp carries its UTC offset as sign + three digits (minutes). *)
+(* The offset is part of the value (same hhmmss with another offset is     *)
+(* another point in time).  Case distinction the binding covers             *)
+(* systematically, in every value position (property, array entry,          *)
+(* qualifier, qualifier declaration, keybinding, parameter value):          *)
+(*   "zero"       +000                                                      *)
+(*   "poswhole" / "negwhole"   a whole number of hours east / west of UTC   *)
+(*   "posfrac"  / "negfrac"    NOT a whole number of hours (+330 India,     *)
+(*                -210 Newfoundland, -570 Marquesas, +030, -030, -001 ...)  *)
+(* Abstract timestamp tokens stand for one representative offset each.     *)
+DtOffsetClass(m) ==
+  IF m = 0 THEN "zero"
+  ELSE IF m % 60 = 0 THEN (IF m > 0 THEN "poswhole" ELSE "negwhole")
+  ELSE (IF m > 0 THEN "posfrac" ELSE "negfrac")
+DtTsToks == {"d:ts", "d:ts+h", "d:ts-h", "d:ts+m", "d:ts-m", "d:ts-s"}
+DtOff(tok) == CASE tok = "d:ts" -> 0 [] tok = "d:ts+h" -> 120
+                [] tok = "d:ts-h" -> -300 [] tok = "d:ts+m" -> 330
+                [] tok = "d:ts-m" -> -210 [] tok = "d:ts-s" -> -30
+DtTokOf(m) == IF \E t \in DtTsToks : DtOff(t) = m
+              THEN CHOOSE t \in DtTsToks : DtOff(t) = m
+              ELSE "d:ts:shifted"
+
+(* CIMDateTime.minutes_from_utc (what str() and so every CIM-XML encoding  *)
+(* writes as offset), from the timezone offset m of the datetime object.   *)
+(* datetime.utcoffset() is a timedelta, which Python normalises to         *)
+(* days = -1 and a POSITIVE seconds part for negative values.              *)
+(*   "days"   the code: offset = seconds / 60; if days == -1:              *)
+(*            offset = -(60 * 24 - offset)                                  *)
+(*   "trunc"  a realistic rewrite as hours / minutes: hours = int(total /  *)
+(*            3600) truncates toward zero, minutes = (abs(total) % 3600)   *)
+(*            // 60 is never negative, offset = hours * 60 + minutes: the  *)
+(*            minutes part gets the wrong sign for negative offsets that   *)
+(*            are not whole hours (-210 -> -150, -030 -> +030)             *)
+TdDays(m) == IF m < 0 THEN -1 ELSE 0
+TdSeconds(m) == m * 60 - TdDays(m) * 86400
+AbsI(x) == IF x < 0 THEN -x ELSE x
+MinutesFromUtc(m, variant) ==
+  IF variant = "days"
+  THEN LET o == TdSeconds(m) \div 60 IN
+       IF TdDays(m) = -1 THEN -(60 * 24 - o) ELSE o
+  ELSE LET total == m * 60
+           hours == (IF total < 0 THEN -1 ELSE 1) * (AbsI(total) \div 3600)
+           minutes == (AbsI(total) % 3600) \div 60
+       IN hours * 60 + minutes
+WireDt(tok, W) ==
+  IF tok \in DtTsToks THEN DtTokOf(MinutesFromUtc(DtOff(tok), W.dtOffset))
+  ELSE tok
 
 (*------- the instance's own path and the same-named key property ---------*)
 (* An instance that is transmitted WITH its path carries every key twice:  *)
@@ -351,6 +403,7 @@ WireElem(el, mode, W) ==
                    ELSE IF el.et = "pval" /\ el.type = "boolean" /\ ~W.boolPval
                            /\ el.val[k] = "b:F"
                    THEN "b:T"
+                   ELSE IF el.type = "datetime" THEN WireDt(el.val[k], W)
                    ELSE el.val[k]]
       newvt == [k \in DOMAIN el.vt |->
                    IF el.vt[k] = "char16" /\ (~W.char16Kb \/ el.et = "pval")
@@ -417,7 +470,7 @@ Shape(el) == [el EXCEPT !.val = [k \in DOMAIN el.val |->
                         !.name = ""]
 AllW == {[x |-> xv, nullOk |-> a, char16Kb |-> b, boolPval |-> c,
           nullNode |-> "fresh", embEmpty |-> "list", pathAttach |-> "after",
-          embPath |-> ep] :
+          embPath |-> ep, dtOffset |-> "days"] :
             xv \in {AsIs, CrFixed}, a \in BOOLEAN, b \in BOOLEAN, c \in BOOLEAN,
             ep \in {"kept", "ignored"}}
 ObjDrift(e) ==
